@@ -57,7 +57,7 @@ func c11cFmt(ps []uint64) []string {
 func TestVerifC11Cluster(t *testing.T) {
 	r := vk.Start(t, "C11")
 	defer r.Finish()
-	r.Expect("cluster:n3r3", "cluster:n3r2", "cluster:n2r2", "cluster:view:standard", "cluster:view:time", "cluster:fragment-missing-on-replica",
+	r.Expect("cluster:view:int", "cluster:view:mutex", "cluster:view:bool", "cluster:n3r3", "cluster:n3r2", "cluster:n2r2", "cluster:view:standard", "cluster:view:time", "cluster:fragment-missing-on-replica",
 		"cluster:view-known-to-one-node", "cluster:tie", "cluster:minority-cleared", "cluster:majority-added", "cluster:multi-block", "cluster:non-owner-untouched", "cluster:repaired")
 	ctx := context.Background()
 	cfgs := []struct{ n, rep int }{{3, 3}, {3, 2}, {2, 2}}
@@ -71,7 +71,7 @@ func TestVerifC11Cluster(t *testing.T) {
 			universe = append(universe, rw*pilosa.ShardWidth+c)
 		}
 	}
-	views := [][2]string{{"f", "standard"}, {"t", "standard"}, {"t", "standard_2017"}, {"t", "standard_201703"}}
+	views := [][2]string{{"f", "standard"}, {"t", "standard"}, {"t", "standard_2017"}, {"t", "standard_201703"}, {"v", "bsig_v"}, {"m", "standard"}, {"b", "standard"}}
 
 	for _, cfg := range cfgs {
 		cfg := cfg
@@ -94,6 +94,15 @@ func TestVerifC11Cluster(t *testing.T) {
 				t.Fatal(err)
 			}
 			if _, err := c[0].API.CreateField(ctx, index, "t", pilosa.OptFieldTypeTime("YM")); err != nil {
+				t.Fatal(err)
+			}
+			if _, err := c[0].API.CreateField(ctx, index, "v", pilosa.OptFieldTypeInt(-1000, 1000)); err != nil {
+				t.Fatal(err)
+			}
+			if _, err := c[0].API.CreateField(ctx, index, "m", pilosa.OptFieldTypeMutex(pilosa.CacheTypeRanked, 100)); err != nil {
+				t.Fatal(err)
+			}
+			if _, err := c[0].API.CreateField(ctx, index, "b", pilosa.OptFieldTypeBool()); err != nil {
 				t.Fatal(err)
 			}
 			cs := &c11cCase{Nodes: cfg.n, Replicas: cfg.rep}
@@ -120,8 +129,12 @@ func TestVerifC11Cluster(t *testing.T) {
 					fr := &c11cFrag{Field: fv[0], View: fv[1], Shard: sh, Owners: owners, nonIdx: -1}
 					// a small pool so that replicas agree on some bits and disagree on others
 					pool := make([]uint64, 0, 6)
-					for len(pool) < 2+rng.Intn(5) {
-						pool = append(pool, universe[rng.Intn(len(universe))])
+					for want := 2 + rng.Intn(5); len(pool) < want; {
+						p := universe[rng.Intn(len(universe))]
+						if fv[0] == "b" {
+							p = uint64(rng.Intn(2))*pilosa.ShardWidth + p%pilosa.ShardWidth // a bool field has rows 0 and 1
+						}
+						pool = append(pool, p)
 					}
 					mode := rng.Intn(5)
 					for k := range owners {
@@ -157,7 +170,7 @@ func TestVerifC11Cluster(t *testing.T) {
 								fr.nonIdx = k
 							}
 						}
-						fr.nonOwner = vk.SortedU64([]uint64{pool[0], universe[rng.Intn(len(universe))]})
+						fr.nonOwner = vk.SortedU64([]uint64{pool[0], pool[1]})
 					}
 					cs.Frags = append(cs.Frags, fr)
 				}
@@ -225,11 +238,38 @@ func TestVerifC11Cluster(t *testing.T) {
 					classes["cluster:view-known-to-one-node"] = true
 				}
 			}
+			// the fragment's own write path may have normalised what was planted (mutex/bool rows): the
+			// initial contents are what the replicas really hold now
+			divergent := map[string]bool{}
+			for _, fr := range cs.Frags {
+				fr.Initial = nil
+				for k, o := range fr.Owners {
+					if !fr.present[k] {
+						fr.Initial = append(fr.Initial, []string{"<no fragment>"})
+						continue
+					}
+					fr.initial[k], _ = pilosa.VerifFragPositions(c[idOf[o]].Server.Holder(), index, fr.Field, fr.View, fr.Shard)
+					fr.Initial = append(fr.Initial, c11cFmt(fr.initial[k]))
+				}
+				if fr.nonIdx >= 0 {
+					fr.nonOwner, _ = pilosa.VerifFragPositions(c[fr.nonIdx].Server.Holder(), index, fr.Field, fr.View, fr.Shard)
+				}
+				for k := 1; k < len(fr.initial); k++ {
+					if !vk.EqualU64(fr.initial[k], fr.initial[0]) {
+						divergent[map[string]string{"f": "set", "t": "time", "v": "int", "m": "mutex", "b": "bool"}[fr.Field]] = true
+					}
+				}
+			}
+			var divs []string
+			for k := range divergent {
+				divs = append(divs, k)
+			}
+			sort.Strings(divs)
 			// ---- every node runs one anti-entropy pass, in a drawn order
 			cs.Order = rng.Perm(cfg.n)
 			for _, k := range cs.Order {
 				if err := c[k].Server.SyncData(); err != nil {
-					r.Fail("cluster:pass-error", id, fmt.Sprintf("SyncData on node %d: %v", k, err), cs)
+					r.Fail("cluster:pass-error:divergent="+strings.Join(divs, "+"), id, fmt.Sprintf("SyncData on node %d: %v", k, err), cs)
 					return
 				}
 			}
@@ -267,8 +307,15 @@ func TestVerifC11Cluster(t *testing.T) {
 					classes["cluster:multi-block"] = true
 				}
 				vc := "standard"
-				if fr.Field == "t" {
+				switch fr.Field {
+				case "t":
 					vc = "time"
+				case "v":
+					vc = "int"
+				case "m":
+					vc = "mutex"
+				case "b":
+					vc = "bool"
 				}
 				classes["cluster:view:"+vc] = true
 				differed := false
